@@ -291,7 +291,9 @@ Fixpoint search (live : bool) (depth : nat) (budget : nat) (p : prog) (c : cfg) 
       match os with
       | ORel id :: rest =>
           let released :=
-            if negb live || stuck_ok p c r then
+            (* the implementation is quiescent here: in the machine no activation may be able to print
+               (stuck_ok) and every silent step must already have been taken *)
+            if negb live || (stuck_ok p c r && match silent_moves p c r with [] => true | _ => false end) then
               match do_release p c r id with
               | Some r' => search live d b p c final r' rest
               | None => (b, false)
@@ -355,9 +357,13 @@ Definition agree_code (p : prog) (c : cfg) (os : list obs) (final : option res) 
    check is decided by the search: 0 = some execution of the machine reproduces the observations
    and is blocked wherever the implementation was; 1 = inconclusive (budget); 2 = no execution of
    the machine is blocked there: the implementation is stuck where the model says it must run. *)
+(* the liveness search must come to a verdict to have any power (an exhausted budget is "no
+   verdict"); it only runs when the eager check fails, which is rare on a correct tree *)
+Definition live_budget : nat := 60000.
+
 Definition live_code (p : prog) (c : cfg) (os : list obs) : nat :=
   if eager_ok p c os then 0
-  else match search true (3 * length os + 600) search_budget p c None {| rs := init_state p; parked := [] |} os with
+  else match search true (3 * length os + 600) live_budget p c None {| rs := init_state p; parked := [] |} os with
        | (_, true) => 0
        | (O, false) => 1
        | (_, false) => 2
